@@ -11,6 +11,8 @@ const (
 	msgTypeObjectOrArray string = `object/array`
 )
 
-var emptyEntity = struct{}{}
+type syntaxEmptyEntity struct{}
+
+var emptyEntity = syntaxEmptyEntity{}
 var emptyList = []interface{}{emptyEntity}
 var fullList = []interface{}{true}
